@@ -511,7 +511,9 @@ def mk_model(cuqi, A, mkind, m, n, decl="dense"):
 def mk_prior(cuqi, spec):
     p, n = spec["prior"], spec["n"]
     if p["kind"] == "gaussian":
-        mean = float(p["mean"][0]) if p.get("scalar_mean") else decl_vec(p["mean"], spec.get("decl", "dense"))
+        # (a user who builds the prior in float32 / integers does so for mean and covariance alike)
+        mdecl = p["g"].get("decl") if p["g"].get("decl") in ("f32", "int") else spec.get("decl", "dense")
+        mean = float(p["mean"][0]) if p.get("scalar_mean") else decl_vec(p["mean"], mdecl)
         return cuqi.distribution.Gaussian(mean, geometry=n, name="x", **gauss_kwargs(p["g"]))
     if p["kind"] == "gmrf":
         mean = float(p["mean"][0]) if p.get("scalar_mean") else np.array(p["mean"], dtype=float)
@@ -646,6 +648,7 @@ def make_sampler(cuqi, spec, target, xcur):
                 kw["rng"] = ScriptRng()
             s = cuqi.sampler.UGLA(target, x0=x0, maxit=MAXIT, tol=TOL, beta=spec["beta"], callback=cb, **kw)
     s._verif_cb = cb
+    s._verif_default_state = x0 is None
     return s
 
 
@@ -665,9 +668,12 @@ def one_draw(cuqi, spec, sampler, xcur, e, cap):
     rng = getattr(sampler, "rng", None)
     if isinstance(rng, ScriptRng):
         rng.e, rng.log = list(e), []
+    own_default = getattr(sampler, "_verif_default_state", False)      # first transition of a sampler built WITHOUT x0:
+    sampler._verif_default_state = False                               # it must start from the documented default (zeros)
     with ScriptedRandom(script=scripted(e)) as sr, quiet():
         if spec["iface"] == "exp":
-            sampler.current_point = xcur
+            if not own_default:
+                sampler.current_point = xcur
             if entry == "step":
                 sampler.step()
             elif entry == "sample":
@@ -680,7 +686,8 @@ def one_draw(cuqi, spec, sampler, xcur, e, cap):
                 assert np.array_equal(stored, x), "the stored sample is not the state after the transition"
                 assert cb is None or (len(cb.calls) == ncb + 1 and np.array_equal(cb.calls[-1][0], x)), "callback did not receive the new sample"
         else:
-            sampler.x0 = xcur
+            if not own_default:
+                sampler.x0 = xcur
             if entry == "burnin":
                 S = sampler.sample(1, 1)
                 x = np.array(S if not hasattr(S, "samples") else S.samples[:, -1], dtype=float).ravel()
